@@ -383,6 +383,9 @@ func c06Engine() *Engine {
 		for di, d := range ds {
 			img := base.Clone()
 			img.SetFileBytes(walPath, d.bytes)
+			if verboseLog {
+				fmt.Printf("  DAMAGE %s at %d (%s)\n", d.kind, d.first, d.note)
+			}
 			rc := recoverOn(img, w, buckets, seed+uint64(di), at, nil)
 			res.Evals++
 			res.Count("damage-"+d.kind, 1)
